@@ -38,6 +38,7 @@ def spread(xs, k):
 
 
 class OP(Adapter):
+    reward_from_actions = True
     name = "op"
     module = "OP"
     tag = "op"
